@@ -86,7 +86,7 @@ example : Intensive (fun m => m.sum / (m.map (fun x => x / 700)).sum) := by
   rw [this, sum_map_mul_left]
   exact mul_div_mul_left _ _ hc.ne'
 
-/-- the masses returned for a requested diameter are a multiple of the masses of one mole of the mixture -/
+/-- (helper, not a clause of the property) the masses returned for a requested diameter are a multiple of the masses of one mole of the mixture -/
 theorem massesByDiameter_eq_scale (ρ : List ℝ → ℝ) (M yk : List ℝ) (de : ℝ) :
     massesByDiameter ρ M de yk =
       (masses M yk).map (fun x => (1 / 6 * pi * de ^ 3 * ρ (masses M yk)) / (masses M yk).sum * x) := by
@@ -121,7 +121,7 @@ example : ∃ (ρ : List ℝ → ℝ) (M yk : List ℝ) (de : ℝ), Intensive ρ
    by intro x hx; simp at hx; rcases hx with rfl | rfl <;> norm_num,
    by intro x hx; simp at hx; rcases hx with rfl | rfl <;> norm_num, by norm_num, by norm_num⟩
 
-/-- mole fractions are invariant under scaling of the masses -/
+/-- (helper, not a clause of the property) mole fractions are invariant under scaling of the masses -/
 theorem molFrac_scale (M m : List ℝ) (c : ℝ) (hc : c ≠ 0) :
     molFrac M (m.map (fun x => c * x)) = molFrac M m := by
   simp only [molFrac, Num.vdiv, Num.real_sum]
@@ -131,6 +131,7 @@ theorem molFrac_scale (M m : List ℝ) (c : ℝ) (hc : c ≠ 0) :
   simp only [Function.comp]
   exact mul_div_mul_left v _ hc
 
+/-- (helper, not a clause of the property) -/
 theorem molFrac_masses (M y : List ℝ) (hl : y.length = M.length) (hM : ∀ x ∈ M, 0 < x) :
     molFrac M (masses M y) = y.map (fun v => v / y.sum) := by
   have h := moles_masses M y hl hM
@@ -224,10 +225,11 @@ theorem ambient_units_table :
 theorem ambient_units_table_complete : ∀ s ∈ Std.ambient, ∃ r ∈ ambientQ, r.unit = s.unit := by
   decide +kernel
 
+/-- (helper, not a clause of the property) -/
 theorem ambient_keys_nodup : (ambientQ.map (·.unit)).Nodup := by
   decide +kernel
 
-/-- the table the driver executes (generic literals, here at ℝ) is the cast of the exact table -/
+/-- (helper, not a clause of the property) the table the driver executes (generic literals, here at ℝ) is the cast of the exact table -/
 theorem ambient_real_eq_cast : ambient (α := ℝ) = ambientQ.map castRow := by
   simp only [ambient, ambientQ, castRow, List.map_cons, List.map_nil, Num.real_ofSci, Num.real_ofNat, Num.real_one,
     Num.real_zero]
@@ -381,7 +383,7 @@ theorem chem_rules_affine : List.Forall₂ RuleRel (chemRules (α := ℝ)) chemR
        push_cast
        first | ring | (norm_num; ring) | (norm_num; done))
 
-/-- for each recognised unit string exactly one block of the chain fires (substring tests do not overlap) -/
+/-- (helper, not a clause of the property) for each recognised unit string exactly one block of the chain fires (substring tests do not overlap) -/
 theorem chem_single_rule_fires :
     ∀ q ∈ chemRulesQ, chemRulesQ.filter (fun q' => ruleMatches q'.pat q'.hasAlt q'.alt q.pat) = [q] ∧
       (q.hasAlt = true → chemRulesQ.filter (fun q' => ruleMatches q'.pat q'.hasAlt q'.alt q.alt) = [q]) := by
